@@ -30,6 +30,10 @@ inductive VExpr where
   | binL (sig : Labels → Labels) (f : Series → Option Series → Option Series) (l r : VExpr)
   /-- concatenation (the two halves of `or`) -/
   | append (l r : VExpr)
+  /-- aggregations that return several series per group: `topk` / `bottomk` / `limitk` (a
+      selection of the members, with their own labels), `count_values` (one series per distinct
+      value); `op k members` are the output series of the group with key `k` -/
+  | aggL (key : Labels → Labels) (op : Labels → List Series → List Series) (e : VExpr)
   /-- a function over time — a range function over a matrix selector (`rate(m[5m])`) or over a
       subquery (`max_over_time((e)[1h:1m])`): the inner expression is evaluated at the timestamps
       `ts t`, the results are grouped per series (`key` = identity, or dropping the metric name)
@@ -38,6 +42,9 @@ inductive VExpr where
 
 def groupAgg (key : Labels → Labels) (op : List Series → Int) (v : Vec) : Vec :=
   (nub (v.map fun s => key s.1)).map fun k => (k, op (v.filter fun s => key s.1 = k))
+
+def groupAggL (key : Labels → Labels) (op : Labels → List Series → List Series) (v : Vec) : Vec :=
+  (nub (v.map fun s => key s.1)).flatMap fun k => op k (v.filter fun s => key s.1 = k)
 
 /-- the input: the series (with their sample) at every evaluation timestamp -/
 abbrev TVec := Int → Vec
@@ -51,6 +58,7 @@ def eval : VExpr → TVec → Int → Vec
     (eval l s t).filterMap fun x => f x ((eval r s t).find? fun y => sig y.1 = sig x.1)
   | .append l r, s, t => eval l s t ++ eval r s t
   | .overTime ts key op e, s, t => groupAgg key op ((ts t).flatMap fun t' => eval e s t')
+  | .aggL key op e, s, t => groupAggL key op (eval e s t)
 
 /-- the series a store hands to shard `i` -/
 def shardOf (sh : Labels → Nat) (i : Nat) (v : Vec) : Vec := v.filter fun s => sh s.1 = i
